@@ -21,7 +21,7 @@ type Program struct {
 	Overrides map[string]string       // full function name -> model function name (same package)
 	InitAllow func(path string) bool
 	ZeroInit  map[string]bool // packages whose globals are left zero (init never run)
-	mu        sync.Mutex
+	mu        *sync.Mutex
 	initStores map[*ssa.Package]map[*ssa.Global]bool
 	errT      *types.Pointer
 }
@@ -59,7 +59,7 @@ func Load(dir string, tags string, overlay map[string][]byte, patterns ...string
 	prog, _ := ssautil.AllPackages(initial, ssa.InstantiateGenerics)
 	prog.Build()
 	p := &Program{Prog: prog, Fset: fset, Pkgs: map[string]*ssa.Package{}, Overrides: map[string]string{},
-		initStores: map[*ssa.Package]map[*ssa.Global]bool{}, ZeroInit: map[string]bool{}}
+		initStores: map[*ssa.Package]map[*ssa.Global]bool{}, ZeroInit: map[string]bool{}, mu: &sync.Mutex{}}
 	for _, sp := range prog.AllPackages() {
 		p.Pkgs[sp.Pkg.Path()] = sp
 	}
